@@ -691,6 +691,49 @@ def r35(ctx, repo, upd):
     ctx.ob("R3.5", ok, "limit is applied only for a positive setting" if ok
            else "guard `limit events > 0` changed", node=lim[0] if lim
            else en, label="limit positive")
+    # the limit is drawn afresh from the current selection on every update:
+    # every normal path through the (positive) limit block passes the random
+    # draw, and the block keeps no state on the Filter instance
+    if lim:
+        from ..cfg import CFG
+        lcfg = CFG(upd)
+        lim_if = lim[0]
+        draw_stmt = anchor
+        while not isinstance(draw_stmt, ast.stmt):
+            draw_stmt = draw_stmt.parent
+        dids = set(lcfg.ids_of(draw_stmt))
+        ok_draw = True
+        for tid in lcfg.ids_of(lim_if):
+            tsucc = [b for (b, l) in lcfg.succ[tid] if l == "T"]
+            for b in tsucc:
+                if b in dids:
+                    continue
+                # where does the block end?  the first node after the If
+                r_ = lcfg.reach([b], avoid_node=lambda n_: n_.id in dids,
+                                avoid_edge=lambda s_, l_, d_: l_ == "x",
+                                include_sources=True)
+                if lcfg.exit in r_:
+                    ok_draw = False
+        ctx.ob("R3.5", ok_draw,
+               "every path through the limit block draws the selection "
+               "afresh" if ok_draw else
+               "a path through the limit block skips the random draw (e.g. "
+               "re-uses a remembered selection): after the eligible events "
+               "changed, fewer than `limit` events (or the wrong ones) pass",
+               node=lim_if, label="limit drawn on every update")
+        state = [n for n in ast.walk(lim_if) if is_self_attr(n)
+                 and n.attr.startswith("_") and not isinstance(
+                     getattr(n, "parent", None), ast.Call)
+                 or (is_self_attr(n) and isinstance(n.ctx, ast.Store))]
+        state = [n for n in state if not (
+            isinstance(getattr(n, "parent", None), ast.Attribute))]
+        ctx.ob("R3.5", not state,
+               "the limit block keeps no state on the filter instance"
+               if not state else
+               f"the limit block reads/writes `self.{state[0].attr}`: a "
+               f"selection remembered from an earlier update leaks into "
+               f"this one", node=state[0] if state else lim_if,
+               label="limit block stateless")
     ret_idx = kwarg(c, "ret_idx")
     ok = ret_idx is not None and txt(ret_idx) == "True"
     sub = c.args[0] if c.args else kwarg(c, "a")
@@ -935,6 +978,27 @@ MUTANTS = [
     ("inversion dropped", POLY,
      ("        if self.inverted:\n            np.invert(f, f)\n", ""),
      "R3.4"),
+    ("limit selection memoised (seeded C16_5)", FILT,
+     ("                sub = arr_all[arr_all]\n"
+      "                _, idx = downsampling.downsample_rand(sub,\n"
+      "                                                      samples=limit,\n"
+      "                                                      ret_idx=True)\n"
+      "                sub[~idx] = False\n"
+      "                arr_all[arr_all] = sub\n",
+      "                lkey = (limit, int(np.sum(arr_all)))\n"
+      "                if getattr(self, \"_limit_cache\", (None, None))[0] "
+      "== lkey:\n"
+      "                    arr_all &= self._limit_cache[1]\n"
+      "                else:\n"
+      "                    sub = arr_all[arr_all]\n"
+      "                    _, idx = downsampling.downsample_rand(sub,\n"
+      "                                                          samples=limit,"
+      "\n                                                          "
+      "ret_idx=True)\n"
+      "                    sub[~idx] = False\n"
+      "                    arr_all[arr_all] = sub\n"
+      "                    self._limit_cache = (lkey, arr_all.copy())\n"),
+     "R3.5"),
     ("limit applied when disabled", FILT,
      ("            if cfg_cur[\"limit events\"] > 0:\n"
       "                limit = cfg_cur[\"limit events\"]\n"
